@@ -32,7 +32,15 @@ fn script() -> &'static str {
 
 pub fn templates() -> Vec<Template> {
     let lua = script();
-    vec![
+    // TF: the file does not end with a newline and its last line is a block's end tag, so git
+    // prints its `\ No newline at end of file` marker between the `-` and `+` lines of an edit there.
+    let mut tf = lfile(
+        "x.py",
+        "{} = 0",
+        "O|first = 0\nO|pad1 = 0\nT0|# <block name=\"u\" keep-unique line-count=\"<2\"> note\nC|d = 1\nC|d = 1 \nE0|# </block>\nO|pad2 = 0\nO|pad3 = 0\nT1|# <block name=\"s\" keep-sorted z=\"1\"> note\nC|b = 1\nC|a = 2\nE1|# </block> note",
+    );
+    tf.trailing_newline = false;
+    let mut all = vec![
         Template {
             name: "TA-python-rules",
             files: vec![
@@ -80,7 +88,9 @@ pub fn templates() -> Vec<Template> {
                 "O|top = 0\nO|pad1 = 0\nT0|# <block name=\"o\" keep-sorted line-count=\"<3\"> note\nC|c1 = 1\nT1|# <block name=\"i\" keep-sorted z=\"1\"> note\nC|n2 = 1\nC|n1 = 2\nE1|# </block> note\nC|c0 = 2\nE0|# </block>\nO|pad2 = 0\nO|tail = 0",
             )],
         },
-    ]
+    ];
+    all.push(Template { name: "TF-no-trailing-newline", files: vec![tf] });
+    all
 }
 
 #[derive(Clone, Copy, Debug, PartialEq, Eq)]
@@ -339,7 +349,7 @@ impl Space for C02Space {
 }
 
 pub fn run(cfg: &Cfg, sink: &Arc<Sink>) -> Report {
-    let mut report = Report::new("states = repository contents reached from a labelled template whose blocks carry rules (sorted/unique/pattern/count and a Lua script rule, violating and not; 5 templates: Python line comments over two files, JS one-line block comments with content on the tag's line and a multi-byte character before the tag, JS tag on line 2 of a 3-line comment with a 3-line end comment, Markdown link-reference + HTML comments, nested) by whole-line insertions/deletions/replacements of content and outside lines and by character-level edits of the tag lines (inside the `<`…`>` span: value character, attribute inserted before `>`, last attribute removed, attribute inserted after `<block`; outside it: character before `<`, after `>`, end of the note, in the end-tag comment; first content character on the tag's line); in every state real `git diff -U<k>` is fed to the real code without path arguments, with `**` and with the first file as path argument, and the same tree is scanned in full; per block the edit classification {inside, tag-only, untouched, adjoining = don't care} fixes selection and the content flag, and every selected block's diagnostics must equal the full scan's; non-trivial = every state ≠ template");
+    let mut report = Report::new("states = repository contents reached from a labelled template whose blocks carry rules (sorted/unique/pattern/count and a Lua script rule, violating and not; 6 templates: Python line comments over two files, JS one-line block comments with content on the tag's line and a multi-byte character before the tag, JS tag on line 2 of a 3-line comment with a 3-line end comment, Markdown link-reference + HTML comments, nested, a file without trailing newline whose last line is an end tag) by whole-line insertions/deletions/replacements of content and outside lines and by character-level edits of the tag lines (inside the `<`…`>` span: value character, attribute inserted before `>`, last attribute removed, attribute inserted after `<block`; outside it: character before `<`, after `>`, end of the note, in the end-tag comment; first content character on the tag's line); in every state real `git diff -U<k>` is fed to the real code without path arguments, with `**` and with the first file as path argument, and the same tree is scanned in full; per block the edit classification {inside, tag-only, untouched, adjoining = don't care} fixes selection and the content flag, and every selected block's diagnostics must equal the full scan's; non-trivial = every state ≠ template");
     report.assume("all lines of the templates are pairwise distinct and inserted lines are fresh, so git's minimal diff is the edit script");
     report.assume("rule verdicts are compared metamorphically with the full scan (C06–C09 decide the rule semantics themselves)");
     let n = templates().len();
